@@ -1134,3 +1134,53 @@ func (c *Ctx) Returns(rule, fname string, rets ...RetSpec) {
 	}
 	c.CheckSites(rule, fn, sp)
 }
+
+// ZeroOnlyUnder: the value v (followed through phis) can be the constant zero
+// only on phi edges whose predecessor block is guarded by the literal `under`.
+// Used where a local starts at 0 and must have been overwritten on every other
+// way to its use (udp Connect's localPort: 0 only for an unbound endpoint).
+func ZeroOnlyUnder(fn *ssa.Function, v ssa.Value, under string) (bool, string) {
+	gi := guardIndex(fn)
+	seen := map[ssa.Value]bool{}
+	bad := ""
+	var walk func(x ssa.Value)
+	walk = func(x ssa.Value) {
+		if seen[x] || bad != "" {
+			return
+		}
+		seen[x] = true
+		phi, ok := x.(*ssa.Phi)
+		if !ok {
+			return
+		}
+		for i, e := range phi.Edges {
+			if k, isC := e.(*ssa.Const); isC && k.Value != nil && k.Value.ExactString() == "0" {
+				pred := phi.Block().Preds[i]
+				has := false
+				lits := append([]string{}, gi[pred.Index]...)
+				// the condition of the very edge pred -> phi block
+				for _, ce := range CondEdges(fn) {
+					if ce.From == pred && ce.Succ < len(pred.Succs) && pred.Succs[ce.Succ] == phi.Block() {
+						l := ce.Atom
+						if !ce.Holds {
+							l = "!" + l
+						}
+						lits = append(lits, l)
+					}
+				}
+				for _, g := range lits {
+					if termEq(g, under) {
+						has = true
+					}
+				}
+				if !has {
+					bad = "the zero value arrives from block " + itoa(pred.Index) + " guarded by [" + strings.Join(lits, " && ") + "]"
+				}
+				continue
+			}
+			walk(e)
+		}
+	}
+	walk(v)
+	return bad == "", bad
+}
